@@ -265,7 +265,8 @@ fn diagrams(m: &mut Monitor, cfg: &Config) {
                     let nst = d.states.len();
                     for (k, s) in d.states.iter().enumerate().take(nst - 1) {
                         if let Ok(r) = PhaseEquilibrium::pure(&eos, s.vapor().temperature, None, SolverOptions::default()) {
-                            m.check("diagram:pure point equals stand-alone solve", &format!("{}|diagram pure", pc.family), case + k as u64, pe_dev(s, &r), TOL, || info.clone());
+                            let sig = if near_trivial(s) != near_trivial(&r) { collapse_sig(s, &r, "diagram pure vs stand-alone") } else { format!("{}|diagram pure", pc.family) };
+                            m.check("diagram:pure point equals stand-alone solve", &sig, case + k as u64, pe_dev(s, &r), TOL, || json!({"info": info, "diagram": pe_json(s), "stand-alone": pe_json(&r)}));
                         }
                     }
                     // same diagram with "given state" and "ideal gas" initialisations failing
